@@ -294,6 +294,28 @@ def work_big(descs):
     return dict(hist), bad, hist["cases"]
 
 
+def work_long(_):
+    """ellipses with 10-12 repetitions: the reported table must follow the tensor's dimensions in order (digits of the repetition index beyond 9)"""
+    import einx
+    hist = collections.Counter(); bad = []
+    for rank in (10, 11, 12):
+        shape = tuple([2, 1, 3, 1, 2, 1, 1, 3, 1, 2, 3, 1][:rank])
+        for desc, sizes, exp_axes in [("a...", {}, {"a": list(shape)}), ("(p a)...", {"p": 1}, {"p": [1] * rank, "a": list(shape)}), ("a... b", {}, {"a": list(shape[:-1]), "b": shape[-1]}),
+                                      ("b a...", {}, {"b": shape[0], "a": list(shape[1:])})]:
+            hist["cases"] += 1
+            try:
+                got = einx.solve_axes(desc, np.zeros(shape, dtype="int8"), **sizes)
+                g = {k: np.asarray(v).tolist() for k, v in got.items()}
+                if g != exp_axes:
+                    bad.append(("LONG-solve_axes-WRONG", f"solve_axes({desc!r}, shape {shape}) = {g}; the unique solution is {exp_axes}", (desc, {"rank": rank}, "solve_axes")))
+                sh = tuple(tuple(int(i) for i in t) for t in einx.solve_shapes(desc, np.zeros(shape, dtype="int8"), **sizes))
+                if sh != (shape,):
+                    bad.append(("LONG-solve_shapes-WRONG", f"solve_shapes({desc!r}, shape {shape}) = {sh}", (desc, {"rank": rank}, "solve_shapes")))
+            except Exception as e:  # noqa
+                bad.append((f"LONG-RAISES:{type(e).__name__}", f"solving {desc!r} against shape {shape} raised {type(e).__name__}", (desc, {"rank": rank}, "solve_axes")))
+    return dict(hist), bad, hist["cases"]
+
+
 def run(ctx):
     lists = list(expr_lists(ctx.tier))
     lists = sorted(set(lists), key=lambda t: (len(t), sum(len(x) for x in t), t))
@@ -309,7 +331,7 @@ def run(ctx):
             ctx.violation(sig, f"{desc!r} shapes={c[1]} sizes={c[2]}: {detail}", {"descs": list(c[0]), "shapes": [None if s is None else list(s) for s in c[1]],
                                                                                    "sizes": {k: (list(v) if isinstance(v, tuple) else v) for k, v in c[2].items()}})
     bh = collections.Counter(); nb = 0
-    for h, bad, k in runner.pmap(work_big, [[d] for d in BIGDESCS], chunksize=1):
+    for h, bad, k in list(runner.pmap(work_big, [[d] for d in BIGDESCS], chunksize=1)) + [work_long(None)]:
         bh.update(h); nb += k
         for verdict, detail, c in bad:
             sig = {"kind": verdict.split(":")[0], "exc": verdict.split(":")[1] if ":" in verdict else "", "desc": c[0], "sizes": str(sorted(c[1].items())), "entry": c[2]}
@@ -338,7 +360,7 @@ def replay(d):
     import einx
     if d.get("big"):
         env = {k: (tuple(v) if isinstance(v, list) else v) for k, v in d["env"].items()}
-        h, bad, _ = work_big([d["desc"]])
+        h, bad, _ = work_long(None) if "rank" in d["env"] else work_big([d["desc"]])
         hits = [b for b in bad if b[2][1] == env and b[2][2] == d["entry"]]
         for b in hits: print(b[1])
         return bool(hits)
